@@ -212,6 +212,11 @@ void Parameter::save(const string &path, bool with_stats) const  {
   writer << static_cast<std::uint32_t>(FileFormat::DataType::PARAMETER);
 
   save_inner(writer, with_stats);
+
+  ofs.flush();
+  if (!ofs) {
+    PRIMITIV_THROW_ERROR("Could not write all data to file: " << path);
+  }
 }
 
 void Parameter::reset_gradient() {
